@@ -165,7 +165,7 @@ impl Check for C18 {
     }
     fn budget(&self, tier: Tier) -> Budget {
         match tier {
-            Tier::Quick => Budget { runs: 400, wall_s: 90 },
+            Tier::Quick => Budget { runs: 800, wall_s: 120 },
             Tier::Thorough => Budget { runs: 12_000, wall_s: 900 },
         }
     }
